@@ -123,6 +123,12 @@ def check(run: Run, prog: Program, model: Model, tier: str) -> None:
             if st is not None and st.hook:
                 rows, _ = extract(prog, model, "Validator", st.hook, Config(()))
                 labels = {str(r.term.args[1]) for r in rows if r.error == "TypeValidationError" and isinstance(r.term, Term) and r.term.op == "isinstance"}
+                if kind not in ("float", "NoneType", "list", "dict") and "value" in st.props:
+                    vr, _ = extract(prog, model, "Validator", st.hook, Config(("value",)))
+                    vrows = [r for r in vr if r.error == "ValueValidationError"]
+                    if vrows and not all(isinstance(r.term, Term) and r.term.op == "eq" and r.polarity is False for r in vrows):
+                        probs.append(f"validator of {v.cls.name} does not compare the pinned value exactly ({vrows[0].pred_key[:60]}): "
+                                     "values differing from it are accepted")
                 from ..values import kind_is
                 if labels and not any(kind_is(kind, lab) or (kind == "UUID" and lab == "UUID") for l in labels for lab in l.split("|")):
                     probs.append(f"validator of {v.cls.name} guards on {sorted(labels)}, which rejects a {kind}")
@@ -140,8 +146,8 @@ def check(run: Run, prog: Program, model: Model, tier: str) -> None:
             run.holds("ARM", c, site, f"-> {want}()(value) pinning the given value; kinds agree with declaration and validator", nontrivial=True)
         for nmsg in sorted(set(notes)):
             run.note("LADDER", c, site, nmsg)
-    run.floor("ARM", 11)
-    run.floor("ONLY-VALUEERROR", 14)
+    run.floor("ARM", 9)
+    run.floor("ONLY-VALUEERROR", 11)
     run.floor("FINAL", 4)
     _memo(run, prog, model, fn)
     _refuses_plain.model = model  # type: ignore
@@ -220,7 +226,7 @@ def _refuses_plain(run: Run, prog: Program, fn: Any, results: Dict[str, List[Pat
                          witness=f"from_native(<plain {kind}>) raises ValueError (e.g. a container referenced twice inside one value)")
         else:
             run.holds("REFUSES-PLAIN", c, fn.loc, "refused only for `...`/optional keys or a non-v4 UUID", nontrivial=False)
-    run.floor("REFUSES-PLAIN", 10)
+    run.floor("REFUSES-PLAIN", 8)
 
 
 def _check_recursion(kind: str, pv: Dict[str, V], probs: List[str]) -> None:
